@@ -69,6 +69,7 @@ def merge_(
                 on_next, on_error, on_completed, scheduler=scheduler
             )
 
+        @synchronized(source.lock)
         def on_next(inner_source: Observable[_T]) -> None:
             assert max_concurrent
             if active_count[0] < max_concurrent:
@@ -77,16 +78,14 @@ def merge_(
             else:
                 queue.append(inner_source)
 
+        @synchronized(source.lock)
         def on_completed():
             is_stopped[0] = True
             if active_count[0] == 0:
                 observer.on_completed()
 
-        group.add(
-            source.subscribe(
-                on_next, observer.on_error, on_completed, scheduler=scheduler
-            )
-        )
+        on_error = synchronized(source.lock)(observer.on_error)
+        group.add(source.subscribe(on_next, on_error, on_completed, scheduler=scheduler))
         return group
 
     return Observable(subscribe)
@@ -141,13 +140,15 @@ def merge_all_(
             )
             inner_subscription.disposable = subscription
 
+        @synchronized(source.lock)
         def on_completed():
             is_stopped[0] = True
             if len(group) == 1:
                 observer.on_completed()
 
+        on_error = synchronized(source.lock)(observer.on_error)
         m.disposable = source.subscribe(
-            on_next, observer.on_error, on_completed, scheduler=scheduler
+            on_next, on_error, on_completed, scheduler=scheduler
         )
         return group
 
